@@ -1515,3 +1515,253 @@ if __name__ == "__main__":
     progs = generate(prop, tier, seed)
     json.dump(progs, open(out, "w"))
     print("%s %s seed=%d: %d programs, %d steps" % (prop, tier, seed, len(progs), sum(len(p["steps"]) for p in progs)))
+
+
+# ---------------------------------------------------------------------------
+# C03: pairs of programs with the same public shape and different secrets.
+# All structural choices (operations, registers, aliasing, lengths, how a value is loaded, multipliers) are drawn
+# from `sh`; all secret values (scalars, points, field elements, cond bits, prior receiver contents) from `sec`.
+# Running the generator twice with the same shape seed and two secret seeds gives the two programs of a pair.
+
+def ct_point(sec):
+    c = sec.randrange(8)
+    if c == 0:
+        return (0, 1)
+    if c == 1:
+        return sec.choice(TORS_PTS)
+    if c == 2:
+        return BPT
+    if c == 3:
+        return special_point(sec)
+    if c == 4:
+        return padd(rand_point(sec), sec.choice(TORS_PTS))
+    return rand_point(sec)
+
+
+def ct_scalar(sec):
+    c = sec.randrange(8)
+    if c == 0:
+        return sec.choice([0, 1, 2, 8, L - 1, L - 2, 2**252, 2**252 + 1, (L - 1) // 2])
+    if c == 1:
+        return (L - sec.randrange(1, 2**20)) % L          # in [2^252, l): the negatives of small numbers
+    if c == 2:
+        return sec.randrange(2**64)
+    if c == 3:
+        return int(("%x" % sec.choice([7, 8, 9, 15])) * 63, 16) % L
+    return sec.randrange(L)
+
+
+def ct_field(sec):
+    c = sec.randrange(8)
+    if c == 0:
+        return sec.randrange(19)                         # loaded in the non-canonical form value + p when possible
+    if c == 1:
+        return sec.choice([0, 1, P - 1, 2, SQRTM1])
+    if c == 2:
+        return struct_val(sec) % P
+    if c == 3:
+        return chain_val(sec)
+    return sec.randrange(P)
+
+
+def ct_load_point(p, reg, how, sec):
+    x, y = ct_point(sec)
+    if how == "bytes":
+        v = y | ((x & 1) << 255)
+        if y < 19 and sec.randrange(2):
+            v = (P + y) | ((x & 1) << 255)
+        elif x == 0 and sec.randrange(2):
+            v = y | (1 << 255)
+        return p.point_from_bytes(reg, le(v))
+    lam = 1 if how == "ext" else sec.randrange(1, P)
+    for r, v in zip(("e4", "e5", "e6", "e7"), [x * lam % P, y * lam % P, lam % P, x * y * lam % P]):
+        ct_load_elem(p, r, v, "bytes", sec)
+    return p.op("Point.SetExtendedCoordinates", r=reg, a=["e4", "e5", "e6", "e7"])
+
+
+def ct_load_scalar(p, reg, how, sec):
+    k = ct_scalar(sec)
+    if how == "canon":
+        return p.scalar_canon(reg, k)
+    if how == "clamp":
+        p.buf("b7", bytes(sec.randrange(256) for _ in range(32)))
+        return p.op("Scalar.SetBytesWithClamping", r=reg, a=["b7"])
+    m = sec.randrange(2**250)
+    return p.scalar_wide(reg, le(k + m * L, 64))
+
+
+def ct_load_elem(p, reg, v, how, sec):
+    if how == "bytes":
+        hi = sec.randrange(2) << 255
+        if v < 19 and sec.randrange(2):
+            return p.elem_from_int(reg, (P + v) | hi)
+        return p.elem_from_int(reg, (v % P) | hi)
+    if how == "wide":
+        p.buf("b7", le((v % P) + sec.randrange(2**250) * P, 64))
+        return p.op("Elem.SetWideBytes", r=reg, a=["b7"])
+    return p.inject(reg, limb_form(sec, v))
+
+
+def ct_prep_receiver(p, reg, kind, sec):
+    if kind == "zero":
+        return
+    if kind == "identity":
+        p.op("NewIdentityPoint", o=[reg])
+    elif kind == "generator":
+        p.op("NewGeneratorPoint", o=[reg])
+    elif kind == "decoded":
+        p.point_from_bytes(reg, enc_point(*rand_point(sec)))
+    else:
+        p.point_from_bytes(reg, enc_point(*rand_point(sec)))
+        p.op("Point.Add", r=reg, a=[reg, reg])
+
+
+def suite_C03(shape_seed, secret_seed, tier):
+    sh = random.Random(shape_seed * 7919 + 3)
+    sec = random.Random(secret_seed * 104729 + 11)
+    g = Gen(0)
+    kinds = ["zero", "identity", "generator", "decoded", "arith"]
+    n1 = 10 if tier == "quick" else 120
+    for it in range(n1):
+        p = g.new("C03 scalar multiplication")
+        ct_load_point(p, "p1", sh.choice(["bytes", "ext", "ext-lam"]), sec)
+        ct_load_point(p, "p2", sh.choice(["bytes", "ext-lam"]), sec)
+        for j in range(3):
+            ct_load_scalar(p, "s%d" % j, sh.choice(["wide", "canon", "clamp"]), sec)
+        r = sh.choice(["p0", "p1"])
+        if r == "p0":
+            ct_prep_receiver(p, "p0", sh.choice(kinds), sec)
+        p.op("Point.ScalarMult", r=r, a=["s0", "p1"])
+        p.op("Point.ScalarBaseMult", r=sh.choice(["p0", "p3"]), a=["s1"])
+        n = sh.randrange(0, 4)
+        p.op("Point.MultiScalarMult", r=sh.choice(["p0", "p4", "p2"]), ss=[sh.choice(["s0", "s1", "s2"]) for _ in range(n)],
+             ps=[sh.choice(["p1", "p2"]) for _ in range(n)])
+        p.op("Point.Bytes", r=r, o=["b0"])
+        p.op("Point.BytesMontgomery", r=r, o=["b1"])
+        p.op("Point.Equal", r=r, a=["p2"])
+        p.op("Point.ExtendedCoordinates", r=r, o=["e0", "e1", "e2", "e3"])
+    n2 = 15 if tier == "quick" else 200
+    for it in range(n2):
+        p = g.new("C03 point arithmetic")
+        ct_load_point(p, "p0", sh.choice(["bytes", "ext", "ext-lam"]), sec)
+        ct_load_point(p, "p1", sh.choice(["bytes", "ext-lam"]), sec)
+        for k in range(6):
+            op = sh.choice(["Point.Add", "Point.Subtract", "Point.Negate", "Point.MultByCofactor", "Point.Equal", "Point.Bytes",
+                            "Point.BytesMontgomery", "Point.Set", "roundtrip"])
+            r, a, b = sh.choice(["p0", "p1", "p2"]), sh.choice(["p0", "p1"]), sh.choice(["p0", "p1"])
+            if op in ("Point.Add", "Point.Subtract"):
+                p.op(op, r=r, a=[a, b])
+            elif op in ("Point.Negate", "Point.MultByCofactor", "Point.Set"):
+                p.op(op, r=r, a=[a])
+            elif op == "Point.Equal":
+                p.op(op, r=a, a=[b])
+            elif op == "roundtrip":
+                p.op("Point.Bytes", r=a, o=["b2"])
+                p.op("Point.SetBytes", r="p3", a=["b2"])
+                p.op("Point.ExtendedCoordinates", r=a, o=["e0", "e1", "e2", "e3"])
+                p.op("Point.SetExtendedCoordinates", r="p4", a=["e0", "e1", "e2", "e3"])
+            else:
+                p.op(op, r=a, o=["b0"])
+    n3 = 15 if tier == "quick" else 200
+    for it in range(n3):
+        p = g.new("C03 scalars")
+        for j in range(3):
+            ct_load_scalar(p, "s%d" % j, sh.choice(["wide", "canon", "clamp"]), sec)
+        for k in range(6):
+            op = sh.choice(["Scalar.Add", "Scalar.Subtract", "Scalar.Multiply", "Scalar.Negate", "Scalar.MultiplyAdd", "Scalar.Equal",
+                            "Scalar.Bytes", "Scalar.Invert", "Scalar.Set"])
+            r = sh.choice(["s0", "s1", "s3"])
+            x, y, z = sh.choice(["s0", "s1", "s2"]), sh.choice(["s0", "s1", "s2"]), sh.choice(["s0", "s1", "s2"])
+            if op in ("Scalar.Add", "Scalar.Subtract", "Scalar.Multiply"):
+                p.op(op, r=r, a=[x, y])
+            elif op in ("Scalar.Negate", "Scalar.Invert", "Scalar.Set"):
+                p.op(op, r=r, a=[x])
+            elif op == "Scalar.MultiplyAdd":
+                p.op(op, r=r, a=[x, y, z])
+            elif op == "Scalar.Equal":
+                p.op(op, r=x, a=[y])
+            else:
+                p.op(op, r=x, o=["b0"])
+    n4 = 30 if tier == "quick" else 400
+    for it in range(n4):
+        p = g.new("C03 field elements")
+        for j in range(3):
+            ct_load_elem(p, "e%d" % j, ct_field(sec), sh.choice(["bytes", "wide", "inject"]), sec)
+        for k in range(8):
+            op = sh.choice(FE_BIN + FE_UN + ["Elem.Select", "Elem.Swap", "Elem.Equal", "Elem.IsNegative", "Elem.Bytes", "Elem.Mult32",
+                                             "Elem.SqrtRatio", "Elem.Set"])
+            r = sh.choice(["e0", "e1", "e3"])
+            x, y = sh.choice(["e0", "e1", "e2"]), sh.choice(["e0", "e1", "e2"])
+            if op in FE_BIN or op == "Elem.SqrtRatio":
+                p.op(op, r=r, a=[x, y])
+            elif op in FE_UN or op == "Elem.Set":
+                p.op(op, r=r, a=[x])
+            elif op == "Elem.Select":
+                p.op(op, r=r, a=[x, y], n=sec.randrange(2))
+            elif op == "Elem.Swap":
+                p.op(op, r=x, a=[y], n=sec.randrange(2))
+            elif op == "Elem.Equal":
+                p.op(op, r=x, a=[y])
+            elif op == "Elem.Mult32":
+                p.op(op, r=r, a=[x], n=sh.choice([0, 1, 121665, 2**32 - 1, sh.randrange(2**32)]))
+            elif op == "Elem.IsNegative":
+                p.op(op, r=x)
+            else:
+                p.op(op, r=x, o=["b0"])
+    return [p.to_json() for p in g.progs]
+
+
+# ---------------------------------------------------------------------------
+# C18: concurrent cold-start scenarios.  Registers 0 and 1 of every kind are shared between the goroutines and
+# only read; registers >= 2 are private to each goroutine.
+def conc_scenario(sid, rng, G):
+    pre = Prog(0, "prelude")
+    load_point(pre, "p0", any_point(rng), rng, rng.choice(["bytes", "ext-lam"]), scratch=("e0", "e1", "e2", "e3"))
+    load_point(pre, "p1", any_point(rng), rng, "bytes")
+    load_scalar(pre, "s0", scalar_val(rng), rng, "canon")
+    load_scalar(pre, "s1", scalar_val(rng), rng, "canon")
+    pre.elem_from_int("e0", field_val(rng))
+    pre.elem_from_int("e1", field_val(rng))
+    gors = []
+    first = rng.choice(["same-base", "same-naf", "mixed"])
+    for g in range(G):
+        p = Prog(sid * 100 + g + 1, "C18 scenario %d goroutine %d" % (sid, g + 1))
+        load_scalar(p, "s2", scalar_val(rng), rng, "canon")
+        ops = ["base", "naf", "mult", "msm", "vmsm", "add", "misc"]
+        rng.shuffle(ops)
+        if first == "same-base" or (first == "mixed" and g % 2 == 0):
+            ops.remove("base")
+            ops.insert(0, "base")
+        else:
+            ops.remove("naf")
+            ops.insert(0, "naf")
+        for op in ops[: rng.randrange(3, 7)]:
+            if op == "base":
+                p.op("Point.ScalarBaseMult", r="p2", a=[rng.choice(["s0", "s2"])])
+                p.op("Point.Bytes", r="p2", o=["b2"])
+            elif op == "naf":
+                p.op("Point.VarTimeDoubleScalarBaseMult", r="p3", a=[rng.choice(["s0", "s2"]), rng.choice(["p0", "p1"]), "s1"])
+                p.op("Point.Bytes", r="p3", o=["b3"])
+            elif op == "mult":
+                p.op("Point.ScalarMult", r="p4", a=["s1", rng.choice(["p0", "p1"])])
+            elif op == "msm":
+                p.op("Point.MultiScalarMult", r="p5", ss=["s0", "s2", "s1"], ps=["p0", "p1", "p0"])
+                p.op("Point.Bytes", r="p5", o=["b4"])
+            elif op == "vmsm":
+                n = rng.randrange(1, 4)
+                p.op("Point.VarTimeMultiScalarMult", r="p5", ss=["s0", "s2", "s1"][:n], ps=["p0", "p1", "p0"][:n])
+                p.op("Point.Bytes", r="p5", o=["b4"])
+            elif op == "add":
+                p.op("Point.Add", r="p2", a=["p0", "p1"])
+                p.op("Point.Equal", r="p0", a=["p1"])
+                p.op("Point.BytesMontgomery", r="p0", o=["b5"])
+            else:
+                p.op("NewGeneratorPoint", o=["p4"])
+                p.op("NewIdentityPoint", o=["p5"])
+                p.op("Scalar.MultiplyAdd", r="s3", a=["s0", "s1", "s2"])
+                p.op("Scalar.Invert", r="s4", a=["s0"])
+                p.op("Elem.Multiply", r="e2", a=["e0", "e1"])
+                p.op("Elem.Invert", r="e3", a=["e0"])
+                p.op("Elem.SqrtRatio", r="e4", a=["e0", "e1"])
+        gors.append(p.to_json())
+    return {"id": sid, "prelude": pre.steps, "goroutines": gors}
